@@ -399,6 +399,40 @@ def decorate(rng, C, db, units_pool, comment_pool, ft):
                 if s.values and rng.random() < 0.3:
                     k = sorted(s.values)[0]
                     s.values[k] = 'the "%s" state' % s.values[k]
+    if ft.get("nonascii") and ft.get("attributes"):
+        for f in db.frames:
+            if "FrStrAttr" in db.frame_defines and rng.random() < 0.3:
+                f.add_attribute("FrStrAttr", rng.choice(units_pool))
+            for s in f.signals:
+                if "SigStrAttr" in db.signal_defines and rng.random() < 0.15:
+                    s.add_attribute("SigStrAttr", rng.choice(units_pool))
+    if ft.get("numeric_extremes"):
+        # every numeric rendering: large/small exponents, trailing zeros, negative offsets
+        sigs = [s for f in db.frames for s in f.signals if not s.is_float and s.size <= 16]
+        for s in rng.sample(sigs, min(len(sigs), 2)):
+            s.factor = D(rng.choice(["1E-10", "2.50E-7", "1.5E+12", "0.10", "4E+3", "0.000001", "1.000"]))
+            s.offset = D(rng.choice(["-1.2300E+5", "0", "-0.5", "1E+6", "-7.0", "0E-3"]))
+            lo, hi = s.calculate_raw_range()
+            s.min, s.max = s.offset + lo * s.factor, s.offset + hi * s.factor
+            s.initial_value = s.offset + rng.choice([lo, hi, 0 if lo <= 0 else lo]) * s.factor
+    if ft.get("value_tables") and rng.random() < 0.5:
+        db.add_value_table("VtMode", {0: "Not available", 5: "Fault 2", 255: "SNA", 16: "16"})
+    if ft.get("free_signals") and rng.random() < 0.5:
+        s = C.Signal("FreeRich%d" % rng.randrange(100), start_bit=8, size=12, is_little_endian=rng.random() < 0.5, is_signed=True,
+                     factor=D("0.5"), offset=D("-10"), unit="V")
+        lo, hi = s.calculate_raw_range()
+        s.min, s.max = s.offset + lo * s.factor, s.offset + hi * s.factor
+        s.initial_value = s.offset + rng.choice([0, 3, -7]) * s.factor
+        if db.ecus:
+            s.add_receiver(db.ecus[0].name)
+        if ft.get("value_tables"):
+            s.add_values(1, "one")
+            s.add_values(-2, "minus two")
+        if ft.get("comments"):
+            s.add_comment("a free signal")
+        db.add_signal(s)
+    if ft.get("id_zero") and db.frames and not any(f.arbitration_id.id == 0 for f in db.frames):
+        db.frames[0].arbitration_id = C.ArbitrationId(0, False)
     if ft.get("env_vars"):
         used = set()
         for _ in range(rng.randrange(1, 4)):
@@ -449,7 +483,7 @@ def decorate(rng, C, db, units_pool, comment_pool, ft):
 
 FEATURES = ["ext_ids", "fd", "j1939", "mux", "floats", "value_tables", "comments", "attributes", "long_names", "multi_senders",
             "free_signals", "env_vars", "signal_groups", "cycle_times", "nonascii", "rich_comments", "quoted_labels", "nested_mux",
-            "long_env_names", "signed"]
+            "long_env_names", "signed", "numeric_extremes", "id_zero", "no_senders"]
 
 
 def gen_case(rng, C, idx, enc):
@@ -462,7 +496,8 @@ def gen_case(rng, C, idx, enc):
               mux="mixed" if ft["mux"] else "none", floats=ft["floats"], value_tables=ft["value_tables"], comments=ft["comments"],
               attributes=ft["attributes"], long_names=ft["long_names"], multi_senders=ft["multi_senders"], free_signals=ft["free_signals"],
               signal_groups=ft["signal_groups"], cycle_times=ft["cycle_times"], signal_cycle_times=ft["cycle_times"], signed=ft["signed"],
-              initial_on_grid=True, fd_j1939_exclusive=True, n_frames=(1, 5), n_ecus=(2, 5))
+              initial_on_grid=True, fd_j1939_exclusive=True, n_frames=(1, 5), n_ecus=(2, 5),
+              senders=not (ft["no_senders"] and idx % 4 != 0))
     db = matgen.gen_matrix(rng, C, **kw)
     decorate(rng, C, db, enc[3], enc[4], ft)
     return db, ft
@@ -479,6 +514,10 @@ def content_classes(db):
             cl.add("frame:j1939")
         if len(f.transmitters) > 1:
             cl.add("senders:multiple")
+        if not f.transmitters:
+            cl.add("senders:none")
+        if f.arbitration_id.id == 0:
+            cl.add("id:zero")
         if len(f.name) > 32:
             cl.add("longname:frame")
         if f.is_complex_multiplexed:
@@ -512,6 +551,12 @@ def content_classes(db):
                 cl.add("mux:m<n>M")
             if not s.is_little_endian:
                 cl.add("order:motorola")
+            if not s.receivers:
+                cl.add("receivers:none")
+            if "E" in str(s.factor) + str(s.offset) + str(s.min) + str(s.max):
+                cl.add("number:exponent")
+            if s.offset < 0:
+                cl.add("number:negative-offset")
             if any(ord(c) > 127 for c in (s.unit or "")):
                 cl.add("unit:non-ascii")
             for k in s.attributes:
@@ -625,7 +670,7 @@ def run(chk):
     C = cm.canmatrix
     rng = chk.rng
     thorough = chk.tier == "thorough"
-    n_mat = 260 if not thorough else 4000
+    n_mat = 1200 if not thorough else 40000
     tie_inputs = []
     for idx in range(n_mat):
         enc = ENC_PROFILES[idx % len(ENC_PROFILES)] if idx % 7 else rng.choice(ENC_PROFILES)
@@ -668,5 +713,6 @@ REQUIRED_CLASSES = [
     "attr:signal:INT", "attr:signal:HEX", "attr:signal:FLOAT", "attr:signal:STRING", "attr:signal:ENUM",
     "senders:multiple", "env-vars", "free-signals", "longname:ecu", "longname:frame", "longname:signal", "longname:envvar",
     "initial:nonzero", "initial:raw0-offset", "value-table:signal", "value-table:global", "comment:multiline", "unit:non-ascii",
-    "signal-groups", "cycle-time", "order:motorola", "encoding:utf-8", "encoding:latin-1",
+    "signal-groups", "cycle-time", "order:motorola", "encoding:utf-8", "encoding:latin-1", "senders:none", "receivers:none",
+    "number:exponent", "number:negative-offset", "id:zero",
 ]
